@@ -986,6 +986,7 @@ def _exec_fast_flow(ctx, plan):
                               % (tk["desc"], len(times), times, tk["lost"]))
     left = [e[0] for e in oracle.enq[oracle.ptr:]]
     if left:
+        poisoned = poisoned or lost_any
         ctx.violation("lost_response_blocks_forever" if poisoned else "queue_never_drained",
                       "fast:%s%s" % (_cmd(left[0]), " (behind a caller whose response was lost)" if poisoned else ""),
                       "commands still queued at the end of the run (no faults pending): %r; awaiting=%r"
